@@ -1135,6 +1135,9 @@ func genC14(o genOpts) error {
 	if err := writeJSON(o.out, "index.json", index); err != nil {
 		return err
 	}
+	covDirect, covRuns := covC14(o.seed) // gen_cov.go: signature code <-> name, Encode / Decode, SignatureView.Verify
+	direct = append(direct, covDirect...)
+	stats["cov_direct_runs"] = covRuns
 	if err := writeJSON(o.out, "direct.json", direct); err != nil {
 		return err
 	}
